@@ -53,14 +53,14 @@ class Replayer:
 		self.snap_id += 1
 		path = os.path.join(self.root, f'snap{self.snap_id}')
 		shutil.copytree(self.world.root, path, copy_function=shutil.copy2)
-		return (path, copy.deepcopy(self.tracker), self.world.clock)
+		return (path, copy.deepcopy(self.tracker), dict(getattr(self.world, 'times', {})))
 
 	def restore(self, snap) -> None:
-		path, tracker, clock = snap
+		path, tracker, times = snap
 		shutil.rmtree(self.world.root)
 		shutil.copytree(path, self.world.root, copy_function=shutil.copy2)
 		self.tracker = copy.deepcopy(tracker)
-		self.world.clock = clock
+		self.world.times = dict(times)
 
 	def drop(self, snap) -> None:
 		shutil.rmtree(snap[0], ignore_errors=True)
@@ -72,7 +72,7 @@ class Replayer:
 		name = op['name']
 		obs: dict = {}
 		if name == 'edit':
-			w.edit(op['m'], op['v'])
+			w.edit(op['m'], op['v'], op.get('t'))
 		elif name == 'clear':
 			w.clear_cache()
 			self.tracker.names = {}
@@ -177,7 +177,8 @@ class Replayer:
 				if not files:
 					self.tracker.names.pop(tk, None)
 					continue
-				key = json.dumps(spec['mt'] if kind == 'ast' else spec['key'], sort_keys=True)
+				# the tree cache is keyed by modification time and content hash (Tranp.tla AstHash); layout-only variants have their own hash
+				key = json.dumps([spec['mt'], spec['v']] if kind == 'ast' else spec['key'], sort_keys=True)
 				name = os.path.basename(files[0])
 				if tk in self.tracker.names:
 					old_name, old_key = self.tracker.names[tk]
